@@ -74,6 +74,24 @@ CHECKS = {
             'bit-field/reversal encodings with a lane-boundary operand pool',
             'Every one of the ~250 encoding rows sampled with lane-boundary operands, prior Q/GE random; full-state diff.',
             'Trusted: vf/ref/sem_dp.py.', 'DESIGN.md §2 C09'),
+    'C02': ('runtime monitoring: lock-step differential monitor (real step vs independent reference step from the same snapshot, every register, status bit and memory byte compared) over the LDR/STR families',
+            'Every single-register load/store encoding row sampled with addresses at device boundaries and at both ends of the address space, E/A/U varied; byte-exact memory diff = write footprint.',
+            'Trusted: vf/ref/mem.py, sem_mem.py.', 'DESIGN.md §2 C02'),
+    'C03': ('runtime monitoring: lock-step differential monitor (real step vs independent reference step from the same snapshot, every register, status bit and memory byte compared) over LDM/STM/PUSH/POP/SRS/RFE + reference-free PUSH;POP / STMDB;LDMIA round trip',
+            'Block-transfer rows sampled at wrapping bases in all modes; round trip restores listed registers and base; all 2^16 lists enumerated in the thorough tier.',
+            'Trusted: vf/ref/sem_mem.py.', 'DESIGN.md §2 C03'),
+    'C04': ('runtime monitoring: lock-step differential monitor (real step vs independent reference step from the same snapshot, every register, status bit and memory byte compared) over the branch encodings + PC-alignment invariant; exhaustive imm8/imm11/CBZ offsets',
+            'All branch rows at code addresses in the middle and at both edges of the address space, arch 4..7; small offset spaces enumerated.',
+            'Trusted: vf/ref/sem_sys.py.', 'DESIGN.md §2 C04'),
+    'C08': ('runtime monitoring: IT-block programs stepped in lock-step with the reference after every instruction, with injected exceptions and returns; it_advance() enumerated',
+            'All legal (firstcond, mask) x 16 NZCV as programs; all 256 ITSTATE values through it_advance().',
+            'Trusted: vf/ref (ITAdvance, exception entry/return).', 'DESIGN.md §2 C08'),
+    'C12': ('runtime monitoring: lock-step differential monitor (real step vs independent reference step from the same snapshot, every register, status bit and memory byte compared) over MRS/MSR/CPS/SETEND/exception returns/hints + negative invariants + entry/return round trip + coprocessor-gating matrix',
+            'PSR masks x modes x security x NMFI/AW/FW sampled; gating matrix enumerated; round trips for 5 exception kinds with ARM and Thumb handlers.',
+            'Trusted: vf/ref CPSRWriteByInstr/SPSRWriteByInstr; the gating decision function in vf/props/c12.py.', 'DESIGN.md §2 C12'),
+    'C13': ('runtime monitoring: direct calls of the real MemA/MemU entry points over the full (size, offset, E, A, U, arch, privilege) matrix vs the reference memory model; store/load round trip; fetch-endianness monitor',
+            'All 1536 cells visited; value, byte-exact RAM diff, fault kind and DFSR/DFAR compared.',
+            'Trusted: vf/ref/mem.py.', 'DESIGN.md §2 C13'),
 }
 
 NOT_APPLICABLE = {}
